@@ -7,10 +7,17 @@ import vlib
 from props import poslib
 
 
-def classify(e_open, e_close, mon):
+def classify(e_open, e_close, mon, profit=None, design=None):
+    """profit: the round-trip profit of the real code (usd at min prices); design: what the precise specification
+    yields for the same input ([ok, profit], from Trace_PositionC10's DES line).  A known DESIGN-level profit is only
+    the same finding when the code is not worse than the design on the monitored quantity."""
     c = e_open["pre"]["m"]["c"]
     p = e_open["pre"]["p"]
-    return {"monitor": mon,
+    worse = None
+    if mon == "RoundTrip":
+        worse = design is None or not design.get("ok") or profit is None or profit > design["profit"]
+    return {"monitor": mon, "profit": profit, "design_profit": (design or {}).get("profit") if (design or {}).get("ok") else None,
+            "worse_than_design": worse,
             # governance convention max_positive_position_impact_factor <= max_negative_position_impact_factor
             "class": "within_convention" if c["maxPosImp"] <= c["maxNegImp"] else "positive_cap_above_negative_cap",
             "maxPosImp": c["maxPosImp"], "maxNegImp": c["maxNegImp"], "long": p["long"], "clong": p["clong"],
@@ -38,12 +45,15 @@ def judge(ctx, name, tr, decimals, acc):
         k = rts[len(rts) // 2]["i"]
         ctx.cov["samples"] += [{"open": {q: ev[k - 2][q] for q in ("a", "px", "rep")},
                                 "close": {q: ev[k - 1][q] for q in ("a", "rep")}, "profit": rts[len(rts) // 2]["profit"]}]
+    des = {x["i"]: x["design"] for x in r.tagged("DES")}
+    prof_by_i = {x["i"]: x["profit"] for x in rts}
     for f in fails:
         e2 = ev[f["i"] - 1]
         e1 = ev[f["i"] - 2] if f["mon"] == "RoundTrip" else e2
-        prof = [x["profit"] for x in rts if x["i"] == f["i"]]
+        prof = [prof_by_i[f["i"]]] if f["i"] in prof_by_i else []
         dr10 = {d.get("i") for d in drifts}
-        ctx.report(dict(classify(e1, e2, f["mon"]), conforms=not (f["i"] in dr10 or (f["i"] - 1) in dr10)),
+        ctx.report(dict(classify(e1, e2, f["mon"], prof[0] if prof else None, des.get(f["i"])),
+                        conforms=not (f["i"] in dr10 or (f["i"] - 1) in dr10)),
                    {"driver": "h-model c10 replay", "decimals": decimals, "cases": [case_of(e1)], "source": name,
                     "profit_usd": prof[0] if prof else None, "open": e1, "close": e2})
     return ev
